@@ -14,17 +14,21 @@ CONSTANTS MaxBlocks,
                        \* the chosen blocks -- declarations are order-independent, so both must behave alike; <<>> = none
 PreludeNone == <<>>
 PreludeDeps == <<"tag1", "tag2", "t1", "t2", "t5", "e1", "mac">>
-VARIABLES bs, pre
-vars == <<bs, pre>>
-Init == bs = <<>> /\ pre \in (IF Prelude = <<>> THEN {"none"} ELSE {"none", "before", "after"})
+VARIABLES bs, pre,
+          ver          \* the parameter of JSIGHT: "0.3" or one of its other spellings, which are different (unsupported) versions
+vars == <<bs, pre, ver>>
+Versions == {"0.3", "0.3.0", "0.03", "00.3", "0.30", ".3", "0.2"}
+Init == bs = <<>> /\ pre \in (IF Prelude = <<>> THEN {"none"} ELSE {"none", "before", "after"}) /\ ver \in Versions
 InPrelude(b) == \E i \in 1..Len(Prelude) : Prelude[i] = b
 Next == /\ Len(bs) < MaxBlocks
         /\ \E b \in BlockIds : (\A i \in 1..Len(bs) : bs[i] # b) /\ (pre # "none" => ~InPrelude(b)) /\ bs' = Append(bs, b)
-        /\ UNCHANGED pre
+        /\ (ver = "0.3" \/ Len(bs) < 1)       \* the other versions with documents of one block only
+        /\ UNCHANGED <<pre, ver>>
 Spec == Init /\ [][Next]_vars
 
 Blocks(b, q) == CASE q = "none" -> b [] q = "before" -> Prelude \o b [] q = "after" -> b \o Prelude
-Doc == DocOf(Blocks(bs, pre))
+DocV(b, v) == [DocOf(b) EXCEPT ![1].p = <<v>>]
+Doc == DocV(Blocks(bs, pre), ver)
 T == RunTree(Doc)
 X == Expand(T)
 C == RunCatalog(T, X)
@@ -36,5 +40,5 @@ KnownVerdict == T.res \in {"ok"} => C.res \in {"ok", "err"}
 InterOrder == Accepted => \A i, j \in 1..Len(C.inters) : i < j => C.inters[i].node < C.inters[j].node
 
 ASSUME PrintT("L " \o ToJson(PoolsJson))
-Emit == LET b == Blocks(bs', pre') IN PrintT("E " \o ToJson([blocks |-> b, doc |-> DocOf(b), x |-> Build(DocOf(b))]))
+Emit == LET b == Blocks(bs', pre') IN PrintT("E " \o ToJson([blocks |-> b, doc |-> DocV(b, ver'), x |-> Build(DocV(b, ver'))]))
 =============================================================================
